@@ -485,7 +485,7 @@ func renderTLA(module string, ops []*opOut, locks []string) string {
 	fmt.Fprintf(&sb, "---- MODULE %s ----\n", module)
 	sb.WriteString("\\* GENERATED by /verif/tools/lockextract from the current source tree. Do not edit.\n")
 	sb.WriteString("\\* Root module for Locks.tla: the operations of the running system as step lists.\n")
-	sb.WriteString("EXTENDS Locks\n\n")
+	sb.WriteString("EXTENDS Integers, Sequences, FiniteSets, TLC\n\n")
 	sb.WriteString("LockNamesDef == {")
 	for k, l := range locks {
 		if k > 0 {
@@ -543,6 +543,11 @@ func renderTLA(module string, ops []*opOut, locks []string) string {
 	sb.WriteString("MultiThreadsDef == {\"http\", \"raft\"}\n")
 	sb.WriteString("SerialPairsDef == {{\"FSM.Snapshot\", \"robustSnapshot.Persist\"}}\n\n")
 	sb.WriteString("\\* run parameters (rewritten by checks/c20.py for the individual TLC runs)\n")
-	sb.WriteString("NSlotsDef == 2\nOnlyOpsDef == {}\nReportDef == TRUE\n\n====\n")
+	sb.WriteString("NSlotsDef == 2\nOnlyOpsDef == {}\nReportDef == TRUE\nPruneDef == FALSE\n\n")
+	sb.WriteString("VARIABLES op, pc, rd, wr\n\n")
+	sb.WriteString("\\* (substitution by INSTANCE, not by the cfg: TLC caches these definitions)\n")
+	sb.WriteString("INSTANCE Locks WITH Ops <- OpsDef, LockNames <- LockNamesDef, MultiThreads <- MultiThreadsDef,\n")
+	sb.WriteString("                    SerialPairs <- SerialPairsDef, NSlots <- NSlotsDef, OnlyOps <- OnlyOpsDef,\n")
+	sb.WriteString("                    Report <- ReportDef, Prune <- PruneDef\n\n====\n")
 	return sb.String()
 }
